@@ -519,6 +519,14 @@ func (h *Host) ProgramLog(message string) error {
 		return err
 	}
 	h.Logs = append(h.Logs, message)
+	// a state probe of the exec stream: `["@<phase><channel>", <what the program read of the channel>]`
+	// is recorded with its marker: l:@<phase><channel>:<digest of the rest>
+	if strings.HasPrefix(message, `["@`) {
+		if i := strings.Index(message[3:], `"`); i > 0 {
+			h.rec("l:@" + message[3:3+i] + ":" + Digest([]byte(message[3+i:])))
+			return nil
+		}
+	}
 	h.rec("l:" + Digest([]byte(message)))
 	return nil
 }
